@@ -24,6 +24,15 @@ chk("C03", "model_checking", "exhaustive append-a-byte tree and truncation grids
     "Trusted: the framing table in c03.rs (spec lengths per CID). Longer strings off the grids are not covered; coverage-guided mutation (sampling) is deliberately not used.",
     "DESIGN.md §3 C03")
 
+chk("C05", "model_checking", "exhaustive enumeration of the counter arithmetic + explicit-state BFS of the real device against a reference acceptor",
+    "(a) the real next_fcnt_down (hook wrapper) is evaluated for all 65536 wire values x every last value in windows around every class of boundary and a stride over the 32-bit range, against the u64 specification rule. (b) BFS over histories of whole uplink transactions on the real nb device; each delivers one frame of an alphabet of fresh / replayed / reordered / far-future / forged / wrong-epoch / oversized frames in RX1 or RX2, from sessions starting at epoch boundaries; a reference acceptor (independent codec + spec rule) decides, and response, remembered counter, delivered plaintext, no-double-accept and monotonicity are checked at every transition.",
+    "Trusted: refcodec/refcrypto, spec_next_fcnt in dev.rs. Window size limit taken from the RfConfig the device bound to the window (C10 checks that). Depth-bounded (3 quick / 4 thorough transactions).",
+    "DESIGN.md §3 C05")
+chk("C06", "fault_enumeration", "explicit-state BFS with a radio fault at every radio call position (deviation-bounded), reference codec decodes every transmitted frame",
+    "BFS over histories of uplink transactions and Class C listening on both real front-ends; every transaction is explored with every receive outcome and with a fault at each radio call position (bound 1 quick, 2 thorough) from sessions with counters at 0, 16-bit and 32-bit boundaries. A monitor decodes every frame handed to the radio, recovers its 32-bit counter by MIC verification, and requires strict growth (identical retransmission tolerated), payload encryption under the same counter, and expiry instead of wrap.",
+    "Trusted: refcodec/refcrypto; the mocks' fault model (a failing call returns Err once). State key keeps the absolute counter only near boundaries (argument in c06.rs).",
+    "DESIGN.md §3 C06")
+
 ALL = ["C%02d" % i for i in range(1, 21)]
 NA_REASON = "check not built yet in this round; see DESIGN.md for the planned bounded exploration"
 
@@ -67,6 +76,6 @@ def main():
     json.dump(m, open("/verif/MANIFEST.json", "w"), indent=1)
     print("checks:", len(checks), "not_applicable:", len(m["not_applicable"]))
 
-HOOK_COMMITS = []
+HOOK_COMMITS = ["cc5ed0e"]
 if __name__ == "__main__":
     main()
